@@ -25,6 +25,10 @@ func main() {
 		checks.Bench(os.Args[2], os.Args[3])
 		return
 	}
+	if len(os.Args) >= 5 && os.Args[1] == "freerun" {
+		checks.FreeRun(os.Args[2], os.Args[3], os.Args[4])
+		return
+	}
 	if len(os.Args) >= 2 && os.Args[1] == "worker" {
 		checks.WorkerMain()
 		return
